@@ -1016,6 +1016,10 @@ class DFA:
         actions = list(actions)
         for finish in target_states:
             for incoming, trans in self.transitions_pointing_to(finish, include_states=True):
+                # A transition that always leaves for somewhere else (an unconditional break, a finish) only nominally points here:
+                # what follows the block it sits in must not run when it is taken.
+                if any(x.get_target_override_mode() in (ActionOverrideMode.ALWAYS_GOTO_OTHER, ActionOverrideMode.ALWAYS_GOTO_UNDEFINED) for x in trans.actions):
+                    continue
                 for action in actions:
                     if action.is_timing_strict() and any(not x.error_handling for x in finish.transitions):
                         # Complain early
@@ -4031,7 +4035,9 @@ class LoopNode(ActionSinkNode, ActionSourceNode):
         # Reroute all transitions with a BreakAction in them that corresponds to our break action to go to us immediately as an optimization.
         for transition in sub_dfa.transitions_that_do(self.break_action):
             transition.to(self.end_state)
-            transition.actions.remove(self.break_action)
+            # Whatever sits behind the break on this transition was adopted from after the block the break is in
+            # (case { "d" -> { "b"; break; } .. } h();) and is not reached when the break is taken.
+            del transition.actions[transition.actions.index(self.break_action):]
             transition.actions.extend(self.after_break_actions)
             should_try_to_append = True
 
